@@ -17,7 +17,7 @@ RULE = ("random cases per helper (oversample lin/pc, extend lin/const in three d
         "n >= 2; distinct by full input.")
 ASSUMPTIONS = ["NaN padding is the tag 'nan' in the model (Option.none)"]
 
-KINDS = ["oversample", "oversample", "extendlin", "extendlin", "extendconst", "appendone", "integral", "sumidx",
+KINDS = ["iaseq", "oversample", "oversample", "extendlin", "extendlin", "extendconst", "appendone", "integral", "sumidx",
          "iaget", "iaset", "to2d", "to2dclosed", "average", "roundtrip"]
 
 
@@ -26,7 +26,7 @@ def cases(rng, tier):
     for _ in range(n_):
         kind = rng.choice(KINDS)
         m = rng.randint(1, 50) if rng.random() < 0.5 else rng.randint(1, 8)
-        a = rng.values(m) if kind not in ("oversample",) or rng.random() < 0.5 else rng.increasing(m)
+        a = rng.values(m) if kind not in ("oversample",) or rng.random() < 0.4 else rng.increasing(m, jitter=rng.random() < 0.5)
         n = rng.randint(1, 16)
         c = {"kind": kind, "a": [str(v) for v in a], "n": n}
         if kind == "oversample":
@@ -48,6 +48,10 @@ def cases(rng, tier):
         elif kind == "sumidx":
             k = rng.randint(0, min(6, m))
             c["idx"] = sorted(rng.randint(0, m) for _ in range(k))
+        elif kind == "iaseq":
+            rows = max(1, m // n)
+            c["sets"] = [[rng.randint(0, rows - 1), rng.randint(0, n - 1), str(rng.dyadic())] for _ in range(rng.randint(1, 3))]
+            c["sets"] = [s_ for s_ in c["sets"] if s_[0] * n + s_[1] < m] or [[0, 0, "5"]]
         elif kind in ("iaget", "iaset"):
             rows = max(1, m // n)
             c["i"] = rng.randint(0, rows + 1)
@@ -56,7 +60,7 @@ def cases(rng, tier):
         elif kind == "to2dclosed":
             c["drop"] = rng.random() < 0.5
         elif kind in ("average", "roundtrip"):
-            c["x"] = [str(v) for v in rng.increasing(m)]
+            c["x"] = [str(v) for v in rng.increasing(m, jitter=rng.random() < 0.3)]
             if kind == "roundtrip":
                 c["n"] = rng.randint(2, 16)
         yield c
@@ -87,6 +91,11 @@ def request(c):
         return f"iaget {n} {c['i']} {c['j']} {fmt_list(a)}"
     if k == "iaset":
         return f"iaset {n} {c['i']} {c['j']} {fmt(Fraction(c['v']))} {fmt_list(a)}"
+    if k == "iaseq":
+        b = list(a)
+        for i, j, v in c["sets"]:
+            b[i * n + j] = Fraction(v)
+        return [f"to2d {n} {fmt_list(b)}", f"to2dclosed {n} 0 {fmt_list(b)}"]
     if k == "to2d":
         return f"to2d {n} {fmt_list(a)}"
     if k == "to2dclosed":
@@ -135,6 +144,15 @@ def run_impl(c):
             ia = IntervalArray(a.copy(), n)
             ia[c["i"], c["j"]] = float(Fraction(c["v"]))
             return {"ok": lst(ia.array)}
+        if k == "iaseq":
+            # layout, write through the view, layout again - on ONE object
+            ia = IntervalArray(a.copy(), n)
+            ia.to_2d_array()
+            ia.to_2d_array_closed_intervals(drop_last=False)
+            for i, j, v in c["sets"]:
+                ia[i, j] = float(Fraction(v))
+            return {"ok": mat(ia.to_2d_array()), "closed": mat(ia.to_2d_array_closed_intervals(drop_last=False)),
+                    "flat": lst(ia.array)}
         if k == "to2d":
             ia = IntervalArray(a, n)
             return {"ok": mat(ia.to_2d_array()), "full": int(ia.nr_of_full_intervals()), "len": len(ia)}
@@ -203,6 +221,12 @@ def compare(c, io, mo):
         return None if okx and oky else f"{k}: impl {ix[:5]}/{iy[:5]} model {[float(v) for v in mx[:5]]}/{[float(v) for v in my[:5]]}"
     if k == "iaget":
         return None if frac(io["ok"]) == Fraction(f[0]) else f"iaget: impl {io['ok']} model {f[0]}"
+    if k == "iaseq":
+        mr = parse_rows(f[2])
+        mc = parse_rows(mo[1][3:].split(" ")[1])
+        if not rows_eq(io["ok"], mr):
+            return f"iaseq: layout after writes differs: impl {io['ok'][:2]} model {f[2][:60]}"
+        return None if rows_eq(io["closed"], mc) else "iaseq: closed layout after writes differs"
     if k == "to2d":
         full, rows = int(f[0]), int(f[1])
         mr = parse_rows(f[2])
@@ -286,6 +310,13 @@ def oracle(c, io):
             want[p] = float(Fraction(c["v"]))
             if r != want:
                 return f"a[{c['i']},{c['j']}] = v wrote somewhere else"
+    elif k == "iaseq":
+        want = list(af)
+        for i, j, v in c["sets"]:
+            want[i * n + j] = float(Fraction(v))
+        flat = [v for row in r for v in row if v is not None]
+        if flat != want or io["flat"] != want:
+            return f"after a[i,j] = v the row-by-row layout does not show the written values: {flat[:6]} vs {want[:6]}"
     elif k == "to2d":
         rows = -(-m // n)
         if len(r) != rows or io["full"] != m // n:
